@@ -135,6 +135,10 @@ def execute(ctx, case: dict) -> None:
     try:
         acl.shading(case.get("skip"))
         acl.shadow_of(case.get("skip"))
+        # the same object asked again under other skip settings (a report remembered from an earlier call would be wrong)
+        for skip in case.get("more_skips", []):
+            acl.shading(skip)
+            acl.shadow_of(skip)
     except Exception as ex:  # pylint: disable=broad-except
         ctx.violation(case, "shading raised on a valid ACL", f"{type(ex).__name__}: {ex}")
     C03._drain(case, ctx)
@@ -162,7 +166,8 @@ def gen_acl_case(rng, platform):
         lines.append(sc.compose(desc, platform))
     text = grammar.acl_header(platform, "X1") + "\n" + "\n".join("  " + ln for ln in lines)
     return {"k": "acl", "platform": platform, "text": text, "group_by": heading,
-            "skip": rng.choice([None, None, [], ["addrgroup"], ["nc_wildcard"], ["addrgroup", "nc_wildcard"]])}
+            "skip": rng.choice([None, None, [], ["addrgroup"], ["nc_wildcard"], ["addrgroup", "nc_wildcard"]]),
+            "more_skips": rng.sample([None, [], ["addrgroup"], ["nc_wildcard"], ["nc_wildcard", "addrgroup"]], rng.randint(0, 3))}
 
 
 def run(ctx) -> None:
